@@ -352,7 +352,8 @@ or a re-taken guard changes the generated paths/edges and breaks one of these):
 * `new_channel` and `forget_channel` do their lookup and their insert/remove in ONE channel-map section;
 * the high-water mark is checked (`new_channel`) and raised (`forget_channel`) while the channel map
   is held; `forget_channel` takes the slot under the map;
-* `setup_channel` holds the tracker across its channel-map sections;
+* `setup_channel` holds the tracker across its single channel-map section (lookup of the stub to
+  insertion of the ready channel, since 07197c0);
 * a channel request holds its slot in one section, with the node ledger nested inside it. -/
 theorem C20_section_extents :
     sectionsOf .new_channel .channels = 1 ∧ sectionsOf .forget_channel .channels = 1 ∧
@@ -360,7 +361,7 @@ theorem C20_section_extents :
     (Cls.channels, Cls.nodeState) ∈ edges .forget_channel ∧
     (Cls.channels, Cls.slot) ∈ edges .forget_channel ∧
     (Cls.tracker, Cls.channels) ∈ edges .setup_channel ∧
-    sectionsOf .setup_channel .tracker = 1 ∧
+    sectionsOf .setup_channel .tracker = 1 ∧ sectionsOf .setup_channel .channels = 1 ∧
     sectionsOf .channel_request .slot = 1 ∧ (Cls.slot, Cls.nodeState) ∈ edges .channel_request := by
   decide +kernel
 
